@@ -132,7 +132,14 @@ func run(r *vt.Run, t vt.TB, s spec) {
 	defer lo.Close()
 
 	// a third handle of this process that can park inside a read
-	own, err := sqlittle.Open(path)
+	// (under another name of the same file: through a symbolic link)
+	ownName := path + ".link"
+	os.Remove(ownName)
+	if err := os.Symlink(path, ownName); err != nil {
+		r.Harness(t, "symlink: %v", err)
+	}
+	defer os.Remove(ownName)
+	own, err := sqlittle.Open(ownName)
 	if err != nil {
 		r.Harness(t, "open own: %v", err)
 	}
